@@ -498,7 +498,7 @@ func limbPatterns(mod *big.Int) [][4]uint64 {
 
 // explorePredicateMatrix: Equal / IsZero over all PAIRS of stored-limb patterns (objects built through the limb hook).
 func explorePredicateMatrix() {
-	pats := limbPatterns(ref.P)
+	pats := append(limbPatterns(ref.P), mc.HalfWordLimbPatterns(ref.P)...) // + words with half-word structure (32-bit folds)
 	mc.Par(len(pats), func(i int) {
 		a := new(FE)
 		secp256k1.VerifFESetLimbs(a, pats[i])
